@@ -666,6 +666,21 @@ func ruleServerErrorsAnswered(w *World, r *Report, rule string) {
 			bad = "can return without sending the error's status code (http.Error / WriteHeader with e.statusCode)"
 		}
 		r.Check(bad == "", rule, "cmd.httpError.WriteTo:status", w.pos(wt.Pos()), "sends e.statusCode on every path", "httpError.WriteTo "+bad)
+		// ... and a body: the clients do not look at the status, an empty body is their not-exist signal
+		bad = ""
+		if ret := pathAvoiding(wt.Blocks[0], func(in ssa.Instruction) bool {
+			c, ok := in.(*ssa.Call)
+			if !ok {
+				return false
+			}
+			if isCallToPkgFunc(c, "net/http", "Error") || isCallToPkgFunc(c, "fmt", "Fprint") || isCallToPkgFunc(c, "fmt", "Fprintf") || isCallToPkgFunc(c, "fmt", "Fprintln") || isCallToPkgFunc(c, "io", "WriteString") {
+				return true
+			}
+			return c.Common().IsInvoke() && c.Common().Method.Name() == "Write"
+		}); ret != nil {
+			bad = "can return (" + w.instrPos(ret) + ") without writing a body"
+		}
+		r.Check(bad == "", rule, "cmd.httpError.WriteTo:body", w.pos(wt.Pos()), "writes a body on every path", "httpError.WriteTo "+bad+": the clients take an empty body for `does not exist`, so a failure of the server is classified as a missing file")
 	}
 }
 
@@ -1989,6 +2004,16 @@ func ruleLoopGoesOn(w *World, r *Report, rule, key string, anchor ssa.Instructio
 					bad = "leaves the loop early at " + w.blockPos(b) + " and carries on after it"
 				}
 			}
+			if idx := errResultIndex(header.Parent()); len(exits) > 0 && idx >= 0 && bad == "" {
+				// a return from inside the loop that reports success stops the loop early just as a break does
+				stop := map[*ssa.BasicBlock]bool{}
+				for _, e := range exits {
+					stop[e] = true
+				}
+				if ret := pathAvoidingTo(s, func(in ssa.Instruction) bool { return stop[in.Block()] }, func(ret *ssa.Return) bool { return isNilConst(ret.Results[idx]) }); ret != nil {
+					bad = "is left from " + w.blockPos(b) + " by a return that reports success (" + w.instrPos(ret) + ")"
+				}
+			}
 			if len(exits) == 0 {
 				// the header never exits by itself (for { … }): any exit not ending in a failure is an early stop
 				idx := errResultIndex(header.Parent())
@@ -3058,4 +3083,165 @@ func tableColumn(v ssa.Value) (*ssa.Alloc, []ssa.Value) {
 		out = append(out, rows[i])
 	}
 	return arr, out
+}
+
+// ruleLayoutOrderKept: none of the named entry points (nor a module function they reach) reorders an archive list:
+// a list is accepted or refused in the order it was written, declared or stored.
+func ruleLayoutOrderKept(w *World, r *Report, rule string, entries ...string) {
+	for _, name := range entries {
+		f := fn(w.Lib, name)
+		if f == nil {
+			continue
+		}
+		var scope []*ssa.Function
+		for g := range moduleReachable(w, []*ssa.Function{f}, nil) {
+			scope = append(scope, g)
+		}
+		sort.Slice(scope, func(i, j int) bool { return funcName(scope[i]) < funcName(scope[j]) })
+		bad := ""
+		for _, g := range scope {
+			for _, c := range callsIn(g) {
+				sc := c.Common().StaticCallee()
+				if sc == nil || sc.Pkg == nil {
+					continue
+				}
+				pth := sc.Pkg.Pkg.Path()
+				if (pth == "sort" && sc.Signature.Recv() == nil) || (pth == "slices" && (strings.HasPrefix(sc.Name(), "Sort") || sc.Name() == "Reverse")) {
+					if bad == "" {
+						bad = pth + "." + sc.Name() + " at " + w.instrPos(c)
+					}
+				}
+			}
+		}
+		r.Check(bad == "", rule, name+":order-kept", w.pos(f.Pos()), fmt.Sprintf("%d functions reachable, none sorts", len(scope)), name+" reorders a list ("+bad+"): a list written out of order is accepted as another list than the one written, and the entry points no longer agree on it")
+	}
+}
+
+// ruleOneClockReading: below the named library entry point the clock (the package variable Now) is read at exactly one
+// place: the archive choice, the range tests and the clamping of one call all see the same instant.
+func ruleOneClockReading(w *World, r *Report, rule string, entries ...string) {
+	for _, name := range entries {
+		f := fn(w.Lib, name)
+		if f == nil {
+			continue
+		}
+		var scope []*ssa.Function
+		for g := range moduleReachable(w, []*ssa.Function{f}, nil) {
+			scope = append(scope, g)
+		}
+		sort.Slice(scope, func(i, j int) bool { return funcName(scope[i]) < funcName(scope[j]) })
+		var sites []string
+		for _, g := range scope {
+			eachInstr(g, func(in ssa.Instruction) {
+				u, ok := in.(*ssa.UnOp)
+				if !ok || u.Op != token.MUL {
+					return
+				}
+				if gl, isG := u.X.(*ssa.Global); isG && gl.Name() == "Now" && gl.Pkg == w.Lib {
+					sites = append(sites, w.instrPos(u))
+				}
+				_ = u
+			})
+			for _, c := range callsIn(g) {
+				if isCallToPkgFunc(c, "time", "Now") {
+					sites = append(sites, w.instrPos(c))
+				}
+			}
+		}
+		r.Check(len(sites) == 1, rule, name+":one-clock-reading", w.pos(f.Pos()), "the clock is read at one place ("+strings.Join(sites, ", ")+")", fmt.Sprintf("%s reads the clock at %d places (%s): when a retention boundary passes between two readings the archive is chosen for one instant and the window tested and clamped for another", name, len(sites), strings.Join(sites, ", ")))
+	}
+}
+
+// ruleParseWindowCheck: a command whose body takes "until not given" (Until == 0) to mean "until now" must not turn the
+// window away in Parse because From lies after that zero: a rejection that compares From with Until is reached only
+// when Until was given (Until != 0).
+func ruleParseWindowCheck(w *World, r *Report, rule, cmdType string) {
+	f := fn(w.Cmd, cmdType+".Parse")
+	if f == nil {
+		return
+	}
+	idx := errResultIndex(f)
+	bad := ""
+	n := 0
+	isFld := func(v ssa.Value, name string) bool { return newExprCtx(w).expr(v) == "p0."+name }
+	for _, b := range f.Blocks {
+		if len(b.Instrs) == 0 {
+			continue
+		}
+		iff, ok := b.Instrs[len(b.Instrs)-1].(*ssa.If)
+		if !ok {
+			continue
+		}
+		cond, _ := stripNot(iff.Cond)
+		bo, ok := cond.(*ssa.BinOp)
+		if !ok || !isCmp(bo.Op) || bo.Op == token.EQL || bo.Op == token.NEQ {
+			continue
+		}
+		if !((isFld(bo.X, "From") && isFld(bo.Y, "Until")) || (isFld(bo.X, "Until") && isFld(bo.Y, "From"))) {
+			continue
+		}
+		// does an outcome of this test end in a refusal?
+		refuses := false
+		for _, sc := range b.Succs {
+			for _, ret := range returnsOf(f) {
+				if idx >= 0 && edgeDominates(b, sc, ret.Block()) && !isNilConst(ret.Results[idx]) {
+					refuses = true
+				}
+			}
+		}
+		if !refuses {
+			continue
+		}
+		n++
+		guarded := false
+		for _, g := range f.Blocks {
+			if len(g.Instrs) == 0 {
+				continue
+			}
+			gi, ok := g.Instrs[len(g.Instrs)-1].(*ssa.If)
+			if !ok {
+				continue
+			}
+			gc, neg := stripNot(gi.Cond)
+			gb, ok := gc.(*ssa.BinOp)
+			if !ok {
+				continue
+			}
+			var other ssa.Value
+			switch {
+			case isFld(gb.X, "Until"):
+				other = gb.Y
+			case isFld(gb.Y, "Until"):
+				other = gb.X
+			default:
+				continue
+			}
+			if k, isK := constInt(other); !isK || k != 0 {
+				continue
+			}
+			// the edge on which Until is known to be non-zero
+			var given *ssa.BasicBlock
+			switch gb.Op {
+			case token.NEQ, token.GTR, token.LSS:
+				given = g.Succs[0]
+				if neg {
+					given = g.Succs[1]
+				}
+			case token.EQL:
+				given = g.Succs[1]
+				if neg {
+					given = g.Succs[0]
+				}
+			default:
+				continue
+			}
+			if given == b || edgeDominates(g, given, b) {
+				guarded = true
+			}
+		}
+		if !guarded && bad == "" {
+			bad = "the test of From against Until at " + w.blockPos(b) + " refuses the window also when Until was not given (0)"
+		}
+	}
+	r.Check(bad == "", rule, cmdType+".Parse:window-check", w.pos(f.Pos()), fmt.Sprintf("%d refusals compare From with Until, each only when Until was given", n), cmdType+".Parse: "+bad+": the command body reads Until == 0 as `until now`, so the window `-from T` alone — which it would serve — is turned away and the command does none of its work")
 }
